@@ -102,6 +102,102 @@ KERNELS = [
     ('SharedMutex_TryGuardShared', None, ['yaclib/coro/shared_mutex.hpp'], 'yaclib::SharedMutex', 'coro/shared_mutex.hpp', 'TryGuardShared', 0),
     ('SharedMutex_Guard', None, ['yaclib/coro/shared_mutex.hpp'], 'yaclib::SharedMutex', 'coro/shared_mutex.hpp', 'Guard', 0),
     ('SharedMutex_GuardShared', None, ['yaclib/coro/shared_mutex.hpp'], 'yaclib::SharedMutex', 'coro/shared_mutex.hpp', 'GuardShared', 0),
+    # ---- FairThreadPool (C08): every member function + the FIFO list it uses
+    ('FairThreadPool_ctor', 'src/runtime/fair_thread_pool.cpp', None, 'yaclib::FairThreadPool', 'fair_thread_pool.cpp', 'FairThreadPool', 0),
+    ('FairThreadPool_Submit', 'src/runtime/fair_thread_pool.cpp', None, 'yaclib::FairThreadPool', 'fair_thread_pool.cpp', 'Submit', 0),
+    ('FairThreadPool_SoftStop', 'src/runtime/fair_thread_pool.cpp', None, 'yaclib::FairThreadPool', 'fair_thread_pool.cpp', 'SoftStop', 0),
+    ('FairThreadPool_Stop', 'src/runtime/fair_thread_pool.cpp', None, 'yaclib::FairThreadPool', 'fair_thread_pool.cpp', 'Stop', 0),
+    ('FairThreadPool_StopLocked', 'src/runtime/fair_thread_pool.cpp', None, 'yaclib::FairThreadPool', 'fair_thread_pool.cpp', 'Stop', 1),
+    ('FairThreadPool_HardStop', 'src/runtime/fair_thread_pool.cpp', None, 'yaclib::FairThreadPool', 'fair_thread_pool.cpp', 'HardStop', 0),
+    ('FairThreadPool_Wait', 'src/runtime/fair_thread_pool.cpp', None, 'yaclib::FairThreadPool', 'fair_thread_pool.cpp', 'Wait', 0),
+    ('FairThreadPool_Loop', 'src/runtime/fair_thread_pool.cpp', None, 'yaclib::FairThreadPool', 'fair_thread_pool.cpp', 'Loop', 0),
+    ('FairThreadPool_WasStop', 'src/runtime/fair_thread_pool.cpp', None, 'yaclib::FairThreadPool', 'fair_thread_pool.cpp', 'WasStop', 0),
+    ('FairThreadPool_WantStop', 'src/runtime/fair_thread_pool.cpp', None, 'yaclib::FairThreadPool', 'fair_thread_pool.cpp', 'WantStop', 0),
+    ('FairThreadPool_NoJobs', 'src/runtime/fair_thread_pool.cpp', None, 'yaclib::FairThreadPool', 'fair_thread_pool.cpp', 'NoJobs', 0),
+    ('FairThreadPool_Alive', 'src/runtime/fair_thread_pool.cpp', None, 'yaclib::FairThreadPool', 'fair_thread_pool.cpp', 'Alive', 0),
+    ('List_MoveCtor', 'src/util/intrusive_list.cpp', None, 'yaclib::detail::List', 'intrusive_list.cpp', 'List', 0),
+    ('List_PushBack', 'src/util/intrusive_list.cpp', None, 'yaclib::detail::List', 'intrusive_list.cpp', 'PushBack', 0),
+    ('List_Empty', 'src/util/intrusive_list.cpp', None, 'yaclib::detail::List', 'intrusive_list.cpp', 'Empty', 0),
+    ('List_PopFront', 'src/util/intrusive_list.cpp', None, 'yaclib::detail::List', 'intrusive_list.cpp', 'PopFront', 0),
+    # ---- fiber sync primitives of the FIBER backend (C18)
+    ('FiberMutex_lock', 'src/fault/fiber/mutex.cpp', None, 'yaclib::detail::fiber::Mutex', 'fiber/mutex.cpp', 'lock', 0),
+    ('FiberMutex_try_lock', 'src/fault/fiber/mutex.cpp', None, 'yaclib::detail::fiber::Mutex', 'fiber/mutex.cpp', 'try_lock', 0),
+    ('FiberMutex_unlock', 'src/fault/fiber/mutex.cpp', None, 'yaclib::detail::fiber::Mutex', 'fiber/mutex.cpp', 'unlock', 0),
+    ('FiberTimedMutex_TimedWaitHelper', None, ['yaclib/fault/detail/fiber/timed_mutex.hpp'], 'yaclib::detail::fiber::TimedMutex', 'fiber/timed_mutex.hpp', 'TimedWaitHelper', 'template'),
+    ('FiberTimedMutex_try_lock_for', None, ['yaclib/fault/detail/fiber/timed_mutex.hpp'], 'yaclib::detail::fiber::TimedMutex', 'fiber/timed_mutex.hpp', 'try_lock_for', 'template'),
+    ('FiberTimedMutex_try_lock_until', None, ['yaclib/fault/detail/fiber/timed_mutex.hpp'], 'yaclib::detail::fiber::TimedMutex', 'fiber/timed_mutex.hpp', 'try_lock_until', 'template'),
+    ('FiberRecursiveMutex_lock', 'src/fault/fiber/recursive_mutex.cpp', None, 'yaclib::detail::fiber::RecursiveMutex', 'fiber/recursive_mutex.cpp', 'lock', 0),
+    ('FiberRecursiveMutex_try_lock', 'src/fault/fiber/recursive_mutex.cpp', None, 'yaclib::detail::fiber::RecursiveMutex', 'fiber/recursive_mutex.cpp', 'try_lock', 0),
+    ('FiberRecursiveMutex_unlock', 'src/fault/fiber/recursive_mutex.cpp', None, 'yaclib::detail::fiber::RecursiveMutex', 'fiber/recursive_mutex.cpp', 'unlock', 0),
+    ('FiberRecursiveMutex_LockHelper', 'src/fault/fiber/recursive_mutex.cpp', None, 'yaclib::detail::fiber::RecursiveMutex', 'fiber/recursive_mutex.cpp', 'LockHelper', 0),
+    ('FiberRecursiveTimedMutex_TimedWaitHelper', None, ['yaclib/fault/detail/fiber/recursive_timed_mutex.hpp'], 'yaclib::detail::fiber::RecursiveTimedMutex', 'fiber/recursive_timed_mutex.hpp', 'TimedWaitHelper', 'template'),
+    ('FiberRecursiveTimedMutex_try_lock_for', None, ['yaclib/fault/detail/fiber/recursive_timed_mutex.hpp'], 'yaclib::detail::fiber::RecursiveTimedMutex', 'fiber/recursive_timed_mutex.hpp', 'try_lock_for', 'template'),
+    ('FiberRecursiveTimedMutex_try_lock_until', None, ['yaclib/fault/detail/fiber/recursive_timed_mutex.hpp'], 'yaclib::detail::fiber::RecursiveTimedMutex', 'fiber/recursive_timed_mutex.hpp', 'try_lock_until', 'template'),
+    ('FiberSharedMutex_lock', 'src/fault/fiber/shared_mutex.cpp', None, 'yaclib::detail::fiber::SharedMutex', 'fiber/shared_mutex.cpp', 'lock', 0),
+    ('FiberSharedMutex_try_lock', 'src/fault/fiber/shared_mutex.cpp', None, 'yaclib::detail::fiber::SharedMutex', 'fiber/shared_mutex.cpp', 'try_lock', 0),
+    ('FiberSharedMutex_unlock', 'src/fault/fiber/shared_mutex.cpp', None, 'yaclib::detail::fiber::SharedMutex', 'fiber/shared_mutex.cpp', 'unlock', 0),
+    ('FiberSharedMutex_lock_shared', 'src/fault/fiber/shared_mutex.cpp', None, 'yaclib::detail::fiber::SharedMutex', 'fiber/shared_mutex.cpp', 'lock_shared', 0),
+    ('FiberSharedMutex_try_lock_shared', 'src/fault/fiber/shared_mutex.cpp', None, 'yaclib::detail::fiber::SharedMutex', 'fiber/shared_mutex.cpp', 'try_lock_shared', 0),
+    ('FiberSharedMutex_unlock_shared', 'src/fault/fiber/shared_mutex.cpp', None, 'yaclib::detail::fiber::SharedMutex', 'fiber/shared_mutex.cpp', 'unlock_shared', 0),
+    ('FiberSharedMutex_LockHelper', 'src/fault/fiber/shared_mutex.cpp', None, 'yaclib::detail::fiber::SharedMutex', 'fiber/shared_mutex.cpp', 'LockHelper', 0),
+    ('FiberSharedMutex_SharedLockHelper', 'src/fault/fiber/shared_mutex.cpp', None, 'yaclib::detail::fiber::SharedMutex', 'fiber/shared_mutex.cpp', 'SharedLockHelper', 0),
+    ('FiberSharedTimedMutex_TimedWaitHelper', None, ['yaclib/fault/detail/fiber/shared_timed_mutex.hpp'], 'yaclib::detail::fiber::SharedTimedMutex', 'fiber/shared_timed_mutex.hpp', 'TimedWaitHelper', 'template'),
+    ('FiberSharedTimedMutex_try_lock_for', None, ['yaclib/fault/detail/fiber/shared_timed_mutex.hpp'], 'yaclib::detail::fiber::SharedTimedMutex', 'fiber/shared_timed_mutex.hpp', 'try_lock_for', 'template'),
+    ('FiberSharedTimedMutex_try_lock_until', None, ['yaclib/fault/detail/fiber/shared_timed_mutex.hpp'], 'yaclib::detail::fiber::SharedTimedMutex', 'fiber/shared_timed_mutex.hpp', 'try_lock_until', 'template'),
+    ('FiberSharedTimedMutex_try_lock_shared_for', None, ['yaclib/fault/detail/fiber/shared_timed_mutex.hpp'], 'yaclib::detail::fiber::SharedTimedMutex', 'fiber/shared_timed_mutex.hpp', 'try_lock_shared_for', 'template'),
+    ('FiberSharedTimedMutex_try_lock_shared_until', None, ['yaclib/fault/detail/fiber/shared_timed_mutex.hpp'], 'yaclib::detail::fiber::SharedTimedMutex', 'fiber/shared_timed_mutex.hpp', 'try_lock_shared_until', 'template'),
+    ('FiberCondVar_notify_one', 'src/fault/fiber/condition_variable.cpp', None, 'yaclib::detail::fiber::ConditionVariable', 'fiber/condition_variable.cpp', 'notify_one', 0),
+    ('FiberCondVar_notify_all', 'src/fault/fiber/condition_variable.cpp', None, 'yaclib::detail::fiber::ConditionVariable', 'fiber/condition_variable.cpp', 'notify_all', 0),
+    ('FiberCondVar_wait', 'src/fault/fiber/condition_variable.cpp', None, 'yaclib::detail::fiber::ConditionVariable', 'fiber/condition_variable.cpp', 'wait', 0),
+    ('FiberCondVar_WaitImpl', None, ['yaclib/fault/detail/fiber/condition_variable.hpp'], 'yaclib::detail::fiber::ConditionVariable', 'fiber/condition_variable.hpp', 'WaitImpl', 'template'),
+    ('FiberCondVar_WaitImplWithPredicate', None, ['yaclib/fault/detail/fiber/condition_variable.hpp'], 'yaclib::detail::fiber::ConditionVariable', 'fiber/condition_variable.hpp', 'WaitImplWithPredicate', 'template'),
+    ('FiberCondVar_wait_for', None, ['yaclib/fault/detail/fiber/condition_variable.hpp'], 'yaclib::detail::fiber::ConditionVariable', 'fiber/condition_variable.hpp', 'wait_for', 'template'),
+    ('FiberCondVar_wait_until', None, ['yaclib/fault/detail/fiber/condition_variable.hpp'], 'yaclib::detail::fiber::ConditionVariable', 'fiber/condition_variable.hpp', 'wait_until', 'template'),
+    ('FiberQueue_WaitNoTimeout', 'src/fault/fiber/queue.cpp', None, 'yaclib::detail::fiber::FiberQueue', 'fiber/queue.cpp', 'Wait', 0),
+    ('FiberQueue_WaitTimed', None, ['yaclib/fault/detail/fiber/queue.hpp'], 'yaclib::detail::fiber::FiberQueue', 'fiber/queue.hpp', 'Wait', 'template'),
+    ('FiberQueue_NotifyAll', 'src/fault/fiber/queue.cpp', None, 'yaclib::detail::fiber::FiberQueue', 'fiber/queue.cpp', 'NotifyAll', 0),
+    ('FiberQueue_NotifyOne', 'src/fault/fiber/queue.cpp', None, 'yaclib::detail::fiber::FiberQueue', 'fiber/queue.cpp', 'NotifyOne', 0),
+    ('FiberQueue_ScheduleAndRemove', 'src/fault/fiber/queue.cpp', None, 'yaclib::detail::fiber::FiberQueue', 'fiber/queue.cpp', 'ScheduleAndRemove', 0),
+    ('FiberThread_join', 'src/fault/fiber/thread.cpp', None, 'yaclib::detail::fiber::Thread', 'fiber/thread.cpp', 'join', 0),
+    ('FiberThread_AfterJoinOrDetach', 'src/fault/fiber/thread.cpp', None, 'yaclib::detail::fiber::Thread', 'fiber/thread.cpp', 'AfterJoinOrDetach', 0),
+    ('FiberBase_Exit', 'src/fault/fiber/fiber_base.cpp', None, 'yaclib::detail::fiber::FiberBase', 'fiber/fiber_base.cpp', 'Exit', 0),
+    ('FiberBase_Resume', 'src/fault/fiber/fiber_base.cpp', None, 'yaclib::detail::fiber::FiberBase', 'fiber/fiber_base.cpp', 'Resume', 0),
+    ('FiberBase_Suspend', 'src/fault/fiber/fiber_base.cpp', None, 'yaclib::detail::fiber::FiberBase', 'fiber/fiber_base.cpp', 'Suspend', 0),
+    ('FiberBase_GetTLS', 'src/fault/fiber/fiber_base.cpp', None, 'yaclib::detail::fiber::FiberBase', 'fiber/fiber_base.cpp', 'GetTLS', 0),
+    ('FiberBase_SetTLS', 'src/fault/fiber/fiber_base.cpp', None, 'yaclib::detail::fiber::FiberBase', 'fiber/fiber_base.cpp', 'SetTLS', 0),
+    ('FiberTls_GetImpl', 'src/fault/fiber/thread_local_proxy.cpp', None, 'yaclib::detail::fiber::GetImpl', 'fiber/thread_local_proxy.cpp', 'GetImpl', 0),
+    ('FiberTls_Set', 'src/fault/fiber/thread_local_proxy.cpp', None, 'yaclib::detail::fiber::Set', 'fiber/thread_local_proxy.cpp', 'Set', 0),
+    ('FiberTls_SetDefault', 'src/fault/fiber/thread_local_proxy.cpp', None, 'yaclib::detail::fiber::SetDefault', 'fiber/thread_local_proxy.cpp', 'SetDefault', 0),
+    ('FiberTlsProxy_assign_ptr', None, ['cstdint', 'yaclib/fault/detail/fiber/thread_local_proxy.hpp'], 'yaclib::detail::fiber::ThreadLocalPtrProxy', 'fiber/thread_local_proxy.hpp', 'operator=', 0),
+    ('FiberTlsProxy_assign_move', None, ['cstdint', 'yaclib/fault/detail/fiber/thread_local_proxy.hpp'], 'yaclib::detail::fiber::ThreadLocalPtrProxy', 'fiber/thread_local_proxy.hpp', 'operator=', 1),
+    ('FiberTlsProxy_assign_copy', None, ['cstdint', 'yaclib/fault/detail/fiber/thread_local_proxy.hpp'], 'yaclib::detail::fiber::ThreadLocalPtrProxy', 'fiber/thread_local_proxy.hpp', 'operator=', 2),
+    ('FiberTlsProxy_assign_conv', None, ['cstdint', 'yaclib/fault/detail/fiber/thread_local_proxy.hpp'], 'yaclib::detail::fiber::ThreadLocalPtrProxy', 'fiber/thread_local_proxy.hpp', 'operator=', 'template'),
+    ('FiberTlsProxy_ctor_default', None, ['cstdint', 'yaclib/fault/detail/fiber/thread_local_proxy.hpp'], 'yaclib::detail::fiber::ThreadLocalPtrProxy', 'fiber/thread_local_proxy.hpp', 'ThreadLocalPtrProxy<Type>', 0),
+    ('FiberTlsProxy_ctor_ptr', None, ['cstdint', 'yaclib/fault/detail/fiber/thread_local_proxy.hpp'], 'yaclib::detail::fiber::ThreadLocalPtrProxy', 'fiber/thread_local_proxy.hpp', 'ThreadLocalPtrProxy<Type>', 1),
+    ('FiberTlsProxy_ctor_copy', None, ['cstdint', 'yaclib/fault/detail/fiber/thread_local_proxy.hpp'], 'yaclib::detail::fiber::ThreadLocalPtrProxy', 'fiber/thread_local_proxy.hpp', 'ThreadLocalPtrProxy<Type>', 3),
+    ('FiberTlsProxy_Get', None, ['cstdint', 'yaclib/fault/detail/fiber/thread_local_proxy.hpp'], 'yaclib::detail::fiber::ThreadLocalPtrProxy', 'fiber/thread_local_proxy.hpp', 'Get', 0),
+    ('FiberSched_Sleep', 'src/fault/fiber/scheduler.cpp', None, 'yaclib::fault::Scheduler', 'fiber/scheduler.cpp', 'Sleep', 0),
+    ('FiberSched_SleepPreemptive', 'src/fault/fiber/scheduler.cpp', None, 'yaclib::fault::Scheduler', 'fiber/scheduler.cpp', 'SleepPreemptive', 0),
+    ('FiberSched_Schedule', 'src/fault/fiber/scheduler.cpp', None, 'yaclib::fault::Scheduler', 'fiber/scheduler.cpp', 'Schedule', 0),
+    ('FiberSched_RescheduleCurrent', 'src/fault/fiber/scheduler.cpp', None, 'yaclib::fault::Scheduler', 'fiber/scheduler.cpp', 'RescheduleCurrent', 0),
+    ('FiberSched_Suspend', 'src/fault/fiber/scheduler.cpp', None, 'yaclib::fault::Scheduler', 'fiber/scheduler.cpp', 'Suspend', 0),
+    ('FiberThisThread_sleep', None, ['yaclib_std/thread'], 'yaclib_std::this_thread', 'detail/this_thread.hpp', 'sleep_until', 'template'),
+    ('FiberThisThread_sleep_for', None, ['yaclib_std/thread'], 'yaclib_std::this_thread', 'detail/this_thread.hpp', 'sleep_for', 'template'),
+    # the yaclib_std wrappers around them (injection points only)
+    ('FaultMutex_lock', None, ['yaclib_std/mutex'], 'yaclib::detail::Mutex', 'fault/detail/mutex.hpp', 'lock', 0),
+    ('FaultMutex_try_lock', None, ['yaclib_std/mutex'], 'yaclib::detail::Mutex', 'fault/detail/mutex.hpp', 'try_lock', 0),
+    ('FaultMutex_unlock', None, ['yaclib_std/mutex'], 'yaclib::detail::Mutex', 'fault/detail/mutex.hpp', 'unlock', 0),
+    ('FaultTimedMutex_try_lock_for', None, ['yaclib_std/mutex'], 'yaclib::detail::TimedMutex', 'fault/detail/timed_mutex.hpp', 'try_lock_for', 'template'),
+    ('FaultTimedMutex_try_lock_until', None, ['yaclib_std/mutex'], 'yaclib::detail::TimedMutex', 'fault/detail/timed_mutex.hpp', 'try_lock_until', 'template'),
+    ('FaultSharedMutex_lock_shared', None, ['yaclib_std/shared_mutex'], 'yaclib::detail::SharedMutex', 'fault/detail/shared_mutex.hpp', 'lock_shared', 0),
+    ('FaultSharedMutex_try_lock_shared', None, ['yaclib_std/shared_mutex'], 'yaclib::detail::SharedMutex', 'fault/detail/shared_mutex.hpp', 'try_lock_shared', 0),
+    ('FaultSharedMutex_unlock_shared', None, ['yaclib_std/shared_mutex'], 'yaclib::detail::SharedMutex', 'fault/detail/shared_mutex.hpp', 'unlock_shared', 0),
+    ('FaultSharedTimedMutex_try_lock_for', None, ['yaclib_std/shared_mutex'], 'yaclib::detail::SharedTimedMutex', 'fault/detail/shared_timed_mutex.hpp', 'try_lock_for', 'template'),
+    ('FaultSharedTimedMutex_try_lock_shared_for', None, ['yaclib_std/shared_mutex'], 'yaclib::detail::SharedTimedMutex', 'fault/detail/shared_timed_mutex.hpp', 'try_lock_shared_for', 'template'),
+    ('FaultCondVar_wait', None, ['yaclib_std/condition_variable'], 'yaclib::detail::ConditionVariable', 'fault/detail/condition_variable.hpp', 'wait', 0),
+    ('FaultCondVar_wait_for', None, ['yaclib_std/condition_variable'], 'yaclib::detail::ConditionVariable', 'fault/detail/condition_variable.hpp', 'wait_for', 'template'),
+    ('FaultCondVar_notify_one', None, ['yaclib_std/condition_variable'], 'yaclib::detail::ConditionVariable', 'fault/detail/condition_variable.hpp', 'notify_one', 0),
+    ('FaultCondVar_notify_all', None, ['yaclib_std/condition_variable'], 'yaclib::detail::ConditionVariable', 'fault/detail/condition_variable.hpp', 'notify_all', 0),
 ]
 
 
